@@ -42,4 +42,31 @@ def _(self, state, *args, context=None, **kwargs):
                     result is state and state.data == as_data(log_result("PyFunction.__call__"))), "any-other-value-becomes-the-data-of-the-successor-state")
 
 
-prop("C01", fucs=["liquer.commands.CommandExecutable.__call__@step"])
+@interface("PyFunction.__call_star__", params=dict(self=Ref("PyFunction"), rest=Seq(Any)), returns=Ref("CommandResult"))
+def _(self, rest):
+    """f(*argv): the function is applied to the elements of one sequence"""
+    raises(Exception, label="the-command-raised")
+    modifies_any("State.metadata")
+    modifies_any("State.data")
+
+
+@contract("liquer.commands.FirstCommandExecutable.__call__@step",
+          params=dict(self=Ref("FirstCommandExecutable"), state=ST, args=Seq(Any), context=Opt(CX), kwargs=Map(Str, Any)), returns=ST,
+          untracked_fields=["arguments"])
+def _(self, state, *args, context=None, **kwargs):
+    """a first command takes no input: the function is applied to the converted arguments only; a plain value becomes the data of
+    the state it was handed - the metadata collected so far (capitalised attributes, sources) stays with it"""
+    raises(Exception, label="argument-error-or-the-command-raised")
+    modifies_any("State.metadata")
+    modifies_any("State.data")
+    ensures(log_count("CommandExecutable.parse_argv") == 1 and log_arg("CommandExecutable.parse_argv", "args") == args, "the-action's-arguments-go-through-the-argument-parser,once")
+    ensures(log_count("PyFunction.__call_star__") == 1 and log_arg("PyFunction.__call_star__", "self") is self.f
+            and log_arg("PyFunction.__call_star__", "rest") == log_result("CommandExecutable.parse_argv")[0], "the-function-is-applied-once,to-exactly-the-converted-arguments")
+    ensures(implies(isinst(log_result("PyFunction.__call_star__"), "State"), result is log_result("PyFunction.__call_star__")), "a-returned-State-is-the-result-as-it-is")
+    ensures(implies(not isinst(log_result("PyFunction.__call_star__"), "State"),
+                    result is state and state.data == as_data(log_result("PyFunction.__call_star__"))),
+            "any-other-value-becomes-the-data-of-the-state-that-was-handed-in,which-keeps-its-metadata")
+
+
+prop("C01", fucs=["liquer.commands.CommandExecutable.__call__@step", "liquer.commands.FirstCommandExecutable.__call__@step"])
+prop("C18", fucs=["liquer.commands.CommandExecutable.__call__@step", "liquer.commands.FirstCommandExecutable.__call__@step"])
